@@ -433,6 +433,11 @@ impl<'k, V> StrMap<'k, V> {
     { unimplemented!() }
 
     #[verifier::external_body]
+    pub fn contains_key(&self, k: &str) -> (r: bool)
+        ensures r == self@.contains_key(k@),
+    { unimplemented!() }
+
+    #[verifier::external_body]
     pub fn insert(&mut self, k: &'k str, v: V) -> (r: Option<V>)
         ensures final(self)@ == old(self)@.insert(k@, v),
     { unimplemented!() }
